@@ -438,11 +438,70 @@ def run(c: checklib.Check):
     if bad:
         c.note("failing clauses (case lines): " + ", ".join(f"{k}={v}" for k, v in sorted(perclause.items())))
         c.cov["failing_case_lines"] = perclause
+    pipeline_leg(c)
     c.sample({"case": lines[len(lines) // 3]})
     c.sample({"case": lines[-1]})
     c.assumptions += ["the tree on disk is not modified while os.walk runs (the harness is the only writer)",
                       "no symbolic links; names are ASCII; os.sep is '/'",
                       "the source law is not demanded when the caller passes an empty (unknown) source path"]
+
+
+# ----------------------------------------------------------------------------- 3. the same laws through the real inotify pipeline
+
+C14_START = {"start": [["a", "d"], ["ab", "d"], ["ab/a", "d"], ["ab/a/f", "f"], ["ab/a/ab", "d"], ["ab/a/ab/a", "f"], ["ab/g", "f"]],
+             "outside": [["t", "d"], ["t/a", "d"], ["t/a/t", "f"], ["t/ab", "f"]]}
+C14_NAMES = ("a", "ab", "c")
+
+
+def rename_histories(maxlen, limit, seed):
+    """Histories of directory renames / arrivals over a tree whose names are character prefixes of each other and repeat
+    along a path; every prefix is executable and paced (checks/history_check.py); all of length 1, then a seeded sample."""
+    from checks import history_check as hc
+
+    def steps(ops):
+        why, T, O = hc.simulate(C14_START["start"], C14_START["outside"], ops)
+        assert why is None, why
+        dirs = sorted(p for p, k in T.items() if k == "dir")
+        out = []
+        for dd in [()] + dirs:
+            for n in C14_NAMES:
+                q = dd + (n,)
+                if q in T or len(q) > 4:
+                    continue
+                for p in dirs:
+                    if q[: len(p)] == p:
+                        continue
+                    out.append(["rename", "/".join(p), "/".join(q)])
+                for t in sorted(x for x in O if len(x) == 1 and O[x] == "dir"):
+                    out.append(["movein", "/".join(t), "/".join(q)])
+        return [o for o in out if hc.simulate(C14_START["start"], C14_START["outside"], ops + [o, ["drain"]])[0] is None]
+
+    rng = random.Random(seed)
+    level = [[]]
+    hists = []
+    for n in range(maxlen):
+        nxt = []
+        for h in level:
+            for o in steps(h):
+                nxt.append(h + [o, ["drain"]])
+        if len(nxt) > limit:
+            nxt = rng.sample(nxt, limit)
+        hists += nxt
+        level = nxt
+    return hists
+
+
+def pipeline_leg(c: checklib.Check):
+    from checks import pipeline_engine as pe
+
+    hists = rename_histories(3 if c.thorough else 2, 1500 if c.thorough else 110, c.seed)
+    cases = []
+    for i, h in enumerate(hists):
+        params = dict(C14_START, ops=h, recursive=True, full=(i % 4 == 3), paced=True, contract=True, final_probe=False)
+        cases.append((params, ("prio", "library") if i % 3 else ("random", c.seed + i, 0.6)))
+    recs = pe.run_cases(c, cases, "directory renames / arrivals on the real inotify observer, one operation at a time")
+    pe.validate(c, "C14", recs)
+    c.cov["pipeline_histories"] = len(hists)
 
 
 def example_args(line):
